@@ -198,12 +198,13 @@ impl Display for PrettyDecimal {
                 if self.value.is_sign_negative() {
                     write!(f, "-")?;
                 }
-                let mantissa = self.value.abs().mantissa().to_string();
                 let scale: usize = self
                     .value
                     .scale()
                     .try_into()
                     .expect("32-bit or larger bit only");
+                // pad with zeros so that all decimal places are covered by digits, as in 0.05.
+                let mantissa = format!("{:0>width$}", self.value.abs().mantissa(), width = scale);
                 let mut remainder = mantissa.as_str();
                 // Here we assume mantissa is all ASCII (given it's [0-9.]+)
                 let mut initial_integer = true;
